@@ -38,8 +38,17 @@ struct Config { cache: ArcCache, descriptor_table: OptDt, filter_block_pinning_p
 struct RecoveredTable { id: TableId, checksum: Checksum, global_seqno: SeqNo }
 struct Recovery { table_ids: Vec<Vec<Vec<RecoveredTable>>>, blob_file_ids: Vec<(BlobFileId, Checksum)>, ghost vid: VersionId }
 /// version::recovery::recover (unit recover, C10.5)
-/// the level count is read from one byte of the version file, so there are at most 255 levels
-#[verifier::external_body] fn recover(path: &Path) -> (r: Result<Recovery, Error>) ensures r is Ok ==> r->Ok_0.table_ids@.len() <= 255 { unimplemented!() }
+/// what the version file named by `current` records (ghost function of the directory); the level count is one byte, so <= 255 levels
+uninterp spec fn recorded_tables(path: &Path) -> Seq<Vec<Vec<RecoveredTable>>>;
+#[verifier::external_body] fn recover(path: &Path) -> (r: Result<Recovery, Error>) ensures r is Ok ==> r->Ok_0.table_ids@.len() <= 255 && r->Ok_0.table_ids@ == recorded_tables(path) { unimplemented!() }
+/// table id `id` is named by the version file
+spec fn recorded(t: Seq<Vec<Vec<RecoveredTable>>>, id: TableId) -> bool { exists|i: int, j: int, k: int| #[trigger] named_at(t, id, i, j, k) }
+spec fn named_at(t: Seq<Vec<Vec<RecoveredTable>>>, id: TableId, i: int, j: int, k: int) -> bool { 0 <= i < t.len() && 0 <= j < t[i]@.len() && 0 <= k < t[i]@[j]@.len() && t[i]@[j]@[k].id == id }
+/// every table named at a position before (li, ri, ti) in iteration order is in the map
+spec fn covered(m: Map<TableId, (u8, Checksum, SeqNo)>, t: Seq<Vec<Vec<RecoveredTable>>>, li: int, ri: int, ti: int) -> bool {
+    forall|i: int, j: int, k: int| 0 <= i < t.len() && 0 <= j < t[i]@.len() && 0 <= k < t[i]@[j]@.len()
+        && (i < li || (i == li && (j < ri || (j == ri && k < ti)))) ==> m.contains_key((#[trigger] t[i]@[j]@[k]).id)
+}
 
 /// crate::HashMap<TableId, (u8, Checksum, SeqNo)> (TRUSTED model of std HashMap)
 struct TableMap { ghost m: Map<TableId, (u8, Checksum, SeqNo)> }
@@ -83,8 +92,23 @@ const TABLES_FOLDER: &'static str = "tables";
 const BLOBS_FOLDER: &'static str = "blobs";
 #[verifier::external_body] fn create_dir_all(p: &PathBuf) -> (r: Result<(), Error>) { unimplemented!() }
 #[verifier::external_body] fn fsync_directory(p: &PathBuf) -> (r: Result<(), Error>) { unimplemented!() }
+/// the directory listing (ghost): what read_dir will deliver
+uninterp spec fn dir_entries(p: PathBuf) -> Seq<Result<DirEntry, Error>>;
 /// `std::fs::read_dir(p)?.enumerate()`
-#[verifier::external_body] fn read_dir_enumerated(p: &PathBuf) -> (r: Result<SeqIter<(usize, Result<DirEntry, Error>)>, Error>) { unimplemented!() }
+#[verifier::external_body]
+fn read_dir_enumerated(p: &PathBuf) -> (r: Result<SeqIter<(usize, Result<DirEntry, Error>)>, Error>)
+    ensures r is Ok ==> r->Ok_0.rest().len() == dir_entries(*p).len() && forall|i: int| 0 <= i < dir_entries(*p).len() ==> (#[trigger] r->Ok_0.rest()[i]).1 == dir_entries(*p)[i]
+{ unimplemented!() }
+/// entry e is a table file the version file does not name
+spec fn is_orphan_entry(e: Result<DirEntry, Error>, rec: Seq<Vec<Vec<RecoveredTable>>>) -> bool {
+    e is Ok && !e->Ok_0.name.ds_store && !e->Ok_0.name.apple_double && e->Ok_0.name.tid is Some && !recorded(rec, e->Ok_0.name.tid->Some_0)
+}
+spec fn listed(v: Seq<PathBuf>, tid: TableId) -> bool { exists|k: int| 0 <= k < v.len() && (#[trigger] v[k]).tid == Some(tid) }
+impl Path {
+    /// `tree_path.join(TABLES_FOLDER)` (R12)
+    uninterp spec fn tables_folder(&self) -> PathBuf;
+    #[verifier::external_body] fn join_tables(&self) -> (r: PathBuf) ensures r == self.tables_folder() { unimplemented!() }
+}
 /// vlog::recover_blob_files: the blob files the version names, and the paths of the others
 #[verifier::external_body]
 fn recover_blob_files(folder: &PathBuf, ids: &Vec<(BlobFileId, Checksum)>, tree_id: TreeId, dt: &OptDt) -> (r: Result<(Vec<BlobFile>, Vec<PathBuf>), Error>)
@@ -106,9 +130,9 @@ fn cleanup_orphaned_version(path: &Path, latest: VersionId, Ghost(recovered): Gh
 { unimplemented!() }
 /// std::fs::remove_file: may only be reached once the version is recovered, and only for a file the version does not name
 #[verifier::external_body]
-fn remove_file(p: &PathBuf, Ghost(recovered): Ghost<bool>, Ghost(live): Ghost<Set<TableId>>, Tracked(fx): Tracked<&mut Fx>) -> (r: Result<(), Error>)
-    requires recovered, p.blob_orphan || (p.tid is Some && !live.contains(p.tid->Some_0))
-    ensures final(fx).removed == old(fx).removed.push(*p) || final(fx).removed == old(fx).removed
+fn remove_file(p: &PathBuf, Ghost(recovered): Ghost<bool>, Ghost(rec): Ghost<Seq<Vec<Vec<RecoveredTable>>>>, Tracked(fx): Tracked<&mut Fx>) -> (r: Result<(), Error>)
+    requires recovered, p.blob_orphan || (p.tid is Some && !recorded(rec, p.tid->Some_0))
+    ensures r is Ok ==> final(fx).removed == old(fx).removed.push(*p), r is Err ==> final(fx).removed == old(fx).removed
 { unimplemented!() }
 struct Tree { p: u8 }
 
@@ -119,13 +143,13 @@ spec fn entry_at(t: Seq<Vec<Vec<RecoveredTable>>>, id: TableId, e: (u8, Checksum
 }
 /// every entry of the table map comes from the version file: level, checksum and global seqno are the recorded ones
 spec fn from_rec(m: Map<TableId, (u8, Checksum, SeqNo)>, t: Seq<Vec<Vec<RecoveredTable>>>) -> bool {
-    forall|id: TableId| #[trigger] m.contains_key(id) ==> exists|i: int, j: int, k: int| entry_at(t, id, m[id], i, j, k)
+    forall|id: TableId| #[trigger] m.contains_key(id) ==> exists|i: int, j: int, k: int| #[trigger] entry_at(t, id, m[id], i, j, k)
 }
 /// a recovered table handle carries what the map (hence the version file) records for its id
 spec fn table_ok(t: Table, m: Map<TableId, (u8, Checksum, SeqNo)>, tree_id: TreeId) -> bool {
     m.contains_key(t.id) && t.checksum == m[t.id].1 && t.global_seqno == m[t.id].2 && t.tree_id == tree_id
 }
-spec fn orphan_ok(p: PathBuf, live: Set<TableId>) -> bool { p.tid is Some && !live.contains(p.tid->Some_0) }
+spec fn orphan_ok(p: PathBuf, rec: Seq<Vec<Vec<RecoveredTable>>>) -> bool { p.tid is Some && !recorded(rec, p.tid->Some_0) }
 
 //@ SUBST `crate :: Error` ==> `Error`
 impl Tree {
@@ -140,6 +164,7 @@ impl Tree {
 //@ SUBST `for run in table_ids` ==> `for run in recovery.table_ids[level_idx].iter()`
 //@ SUBST `level_idx . try_into ( ) . expect ( $1 )` ==> `u8::try_from(level_idx).expect($1)`
 //@ SUBST `vec ! [ ]` ==> `Vec::new()`
+//@ SUBST `tree_path . join ( TABLES_FOLDER )` ==> `tree_path.join_tables()`
 //@ SUBST `std :: fs :: create_dir_all` ==> `create_dir_all`
 //@ SUBST `for ( idx , dirent ) in std :: fs :: read_dir ( & table_base_folder ) ? . enumerate ( ) {` ==> `let mut iter__ = read_dir_enumerated(&table_base_folder)?; loop { let Some((idx, dirent)) = iter__.next() else { break; };`
 //@ SUBST `file_name == ".DS_Store"` ==> `file_name.is_ds_store()`
@@ -152,7 +177,7 @@ impl Tree {
 //@ SUBST `crate :: vlog :: recover_blob_files` ==> `recover_blob_files`
 //@ SUBST `crate :: file :: BLOBS_FOLDER` ==> `BLOBS_FOLDER`
 //@ SUBST `Self :: cleanup_orphaned_version ( $1 )` ==> `cleanup_orphaned_version($1, Ghost(recovered), Tracked(fx))`
-//@ SUBST `std :: fs :: remove_file ( $1 )` ==> `remove_file($1, Ghost(recovered), Ghost(live), Tracked(fx))`
+//@ SUBST `std :: fs :: remove_file ( $1 )` ==> `remove_file($1, Ghost(recovered), Ghost(rec), Tracked(fx))`
     fn recover_levels(
         tree_path: &Path,
         tree_id: TreeId,
@@ -164,26 +189,29 @@ impl Tree {
             // the obligations proper are the loop invariants (every recovered handle carries the recorded checksum / global seqno / tree id)
             // and the preconditions of remove_file / cleanup_orphaned_version (reached only after the version is recovered, only for
             // files the version does not name); a failure before that point has unlinked nothing
-            forall|i: int| 0 <= i < final(fx).removed.len() ==> (#[trigger] final(fx).removed[i]).blob_orphan || final(fx).removed[i].tid is Some,/*-*/
+            forall|i: int| 0 <= i < final(fx).removed.len() ==> (#[trigger] final(fx).removed[i]).blob_orphan || final(fx).removed[i].tid is Some,
+            // C20: after a successful open every table file the version file does not name has been unlinked
+            r is Ok ==> forall|j: int| 0 <= j < dir_entries(tree_path.tables_folder()).len() && #[trigger] is_orphan_entry(dir_entries(tree_path.tables_folder())[j], recorded_tables(tree_path))
+                ==> listed(final(fx).removed, dir_entries(tree_path.tables_folder())[j]->Ok_0.name.tid->Some_0),/*-*/
     {
-        /*+*/let ghost mut recovered = false;
-        let ghost mut live: Set<TableId> = Set::empty();/*-*/
+        /*+*/let ghost mut recovered = false;/*-*/
 
         let recovery = recover(tree_path)?;
+        /*+*/let ghost rec = recovery.table_ids@;/*-*/
 
         let table_map = {
             let mut result: TableMap = TableMap::default();
 
             for level_idx in 0..recovery.table_ids.len()
-                /*+*/invariant from_rec(result.m, recovery.table_ids@), recovery.table_ids@.len() < 256,/*-*/
+                /*+*/invariant from_rec(result.m, recovery.table_ids@), recovery.table_ids@.len() < 256, rec == recovery.table_ids@, covered(result.m, rec, level_idx as int, 0, 0),/*-*/
             {
                 for run in /*+*/it_r:/*-*/ recovery.table_ids[level_idx].iter()
-                    /*+*/invariant from_rec(result.m, recovery.table_ids@), 0 <= level_idx < recovery.table_ids@.len() < 256,
+                    /*+*/invariant from_rec(result.m, recovery.table_ids@), 0 <= level_idx < recovery.table_ids@.len() < 256, rec == recovery.table_ids@, covered(result.m, rec, level_idx as int, it_r.index@ as int, 0),
                         it_r.seq().len() == recovery.table_ids@[level_idx as int]@.len(),
                         forall|j: int| 0 <= j < it_r.seq().len() ==> *(#[trigger] it_r.seq()[j]) == recovery.table_ids@[level_idx as int]@[j],/*-*/
                 {
                     for table in /*+*/it_t: run
-                        invariant from_rec(result.m, recovery.table_ids@), 0 <= level_idx < recovery.table_ids@.len() < 256,
+                        invariant from_rec(result.m, recovery.table_ids@), 0 <= level_idx < recovery.table_ids@.len() < 256, rec == recovery.table_ids@, covered(result.m, rec, level_idx as int, it_r.index@ as int, it_t.index@ as int),
                             0 <= it_r.index@ < recovery.table_ids@[level_idx as int]@.len(), *run == recovery.table_ids@[level_idx as int]@[it_r.index@ as int],
                             it_t.seq().len() == run@.len(), forall|k: int| 0 <= k < run@.len() ==> *(#[trigger] it_t.seq()[k]) ==/*-*/ run/*+*/@[k],/*-*/
                     {
@@ -197,9 +225,11 @@ impl Tree {
                             ),
                         );
                         /*+*/proof {
-                            assert forall|id: TableId| #[trigger] result.m.contains_key(id) implies exists|i: int, j: int, k: int| entry_at(recovery.table_ids@, id, result.m[id], i, j, k) by {
+                            assert(*table == rec[level_idx as int]@[it_r.index@ as int]@[it_t.index@ as int]);
+                            assert(entry_at(rec, table.id, result.m[table.id], level_idx as int, it_r.index@ as int, it_t.index@ as int));
+                            assert forall|id: TableId| #[trigger] result.m.contains_key(id) implies exists|i: int, j: int, k: int| #[trigger] entry_at(recovery.table_ids@, id, result.m[id], i, j, k) by {
                                 if id == table.id { assert(entry_at(recovery.table_ids@, id, result.m[id], level_idx as int, it_r.index@ as int, it_t.index@ as int)); }
-                                else { assert(m0.contains_key(id)); }
+                                else { assert(m0.contains_key(id)); let (i, j, k) = choose|i: int, j: int, k: int| #[trigger] entry_at(recovery.table_ids@, id, m0[id], i, j, k); assert(entry_at(recovery.table_ids@, id, result.m[id], i, j, k)); }
                             }
                         }/*-*/
                     }
@@ -209,7 +239,12 @@ impl Tree {
             result
         };
 
-        /*+*/proof { live = table_map.m.dom(); }/*-*/
+        /*+*/proof {
+            assert forall|id: TableId| recorded(rec, id) implies table_map.m.contains_key(id) by {
+                let (i, j, k) = choose|i: int, j: int, k: int| #[trigger] named_at(rec, id, i, j, k);
+                assert(table_map.m.contains_key(rec[i]@[j]@[k].id));
+            }
+        }/*-*/
         let cnt = table_map.len();
 
         let progress_mod = match cnt {
@@ -220,7 +255,7 @@ impl Tree {
 
         let mut tables = Vec::new();
 
-        let table_base_folder = tree_path.join(TABLES_FOLDER);
+        let table_base_folder = tree_path.join_tables();
 
         if !table_base_folder.try_exists()? {
             create_dir_all(&table_base_folder)?;
@@ -229,13 +264,25 @@ impl Tree {
 
         let mut orphaned_tables = Vec::new();
 
+        /*+*/let ghost ents = dir_entries(table_base_folder); let ghost mut done: int = 0;/*-*/
         let mut iter__ = read_dir_enumerated(&table_base_folder)?; loop
-            /*+*/invariant fx.removed.len() == 0, !recovered, live == table_map.m.dom(), from_rec(table_map.m, recovery.table_ids@), progress_mod > 0,
+            /*+*/invariant fx.removed.len() == 0, !recovered, rec == recovery.table_ids@, from_rec(table_map.m, rec), (forall|id: TableId| recorded(rec, id) ==> table_map.m.contains_key(id)), progress_mod > 0,
                 forall|i: int| 0 <= i < tables@.len() ==> table_ok(#[trigger] tables@[i], table_map.m, tree_id),
-                forall|i: int| 0 <= i < orphaned_tables@.len() ==> orphan_ok(#[trigger] orphaned_tables@[i], live) && !orphaned_tables@[i].blob_orphan,
+                forall|i: int| 0 <= i < orphaned_tables@.len() ==> orphan_ok(#[trigger] orphaned_tables@[i], rec) && !orphaned_tables@[i].blob_orphan,
+                0 <= done <= ents.len(), ents == dir_entries(tree_path.tables_folder()), iter__.rest().len() == ents.len() - done,
+                forall|i: int| 0 <= i < iter__.rest().len() ==> (#[trigger] iter__.rest()[i]).1 == ents[done + i],
+                forall|j: int| 0 <= j < done && #[trigger] is_orphan_entry(ents[j], rec) ==> listed(orphaned_tables@, ents[j]->Ok_0.name.tid->Some_0),
+            ensures done == ents.len(),
             decreases iter__.rest().len(),/*-*/
         {
+            /*+*/let ghost rest0 = iter__.rest();
+            let ghost ot0 = orphaned_tables@;/*-*/
             let Some((idx, dirent)) = iter__.next() else { break; };
+            /*+*/proof {
+                assert(dirent == ents[done]);
+                assert forall|i: int| 0 <= i < iter__.rest().len() implies (#[trigger] iter__.rest()[i]).1 == ents[done + 1 + i] by { assert(iter__.rest()[i] == rest0[i + 1]); }
+                done = done + 1;
+            }/*-*/
             let dirent = dirent?;
             let file_name = dirent.file_name();
 
@@ -274,8 +321,25 @@ impl Tree {
 
                 if idx % progress_mod == 0 {
                 }
+                /*+*/proof {
+                    let (i, j, k) = choose|i: int, j: int, k: int| #[trigger] entry_at(rec, table_id, table_map.m[table_id], i, j, k);
+                    assert(named_at(rec, table_id, i, j, k));
+                    assert(!is_orphan_entry(ents[done - 1], rec));
+                }/*-*/
             } else {
                 orphaned_tables.push(table_file_path);
+                /*+*/proof {
+                    let n = ot0.len() as int;
+                    assert(orphaned_tables@[n].tid == Some(table_id));
+                    assert forall|j: int| 0 <= j < done && #[trigger] is_orphan_entry(ents[j], rec) implies listed(orphaned_tables@, ents[j]->Ok_0.name.tid->Some_0) by {
+                        if j < done - 1 {
+                            let k = choose|k: int| 0 <= k < ot0.len() && (#[trigger] ot0[k]).tid == Some(ents[j]->Ok_0.name.tid->Some_0);
+                            assert(orphaned_tables@[k] == ot0[k]);
+                        } else {
+                            assert(orphaned_tables@[n].tid == Some(ents[j]->Ok_0.name.tid->Some_0));
+                        }
+                    }
+                }/*-*/
             }
         }
 
@@ -297,19 +361,45 @@ impl Tree {
         // But only after we definitely recovered the latest version
         cleanup_orphaned_version(tree_path, version.id(), Ghost(recovered), Tracked(fx))?;
 
+        /*+*/let ghost ot = orphaned_tables@;/*-*/
         for table_path in /*+*/it_o:/*-*/ orphaned_tables
-            /*+*/invariant recovered, forall|i: int| 0 <= i < it_o.seq().len() ==> orphan_ok(#[trigger] it_o.seq()[i], live),
+            /*+*/invariant recovered, it_o.seq() == ot, forall|i: int| 0 <= i < it_o.seq().len() ==> orphan_ok(#[trigger] it_o.seq()[i], rec),
+                forall|i: int| 0 <= i < it_o.index@ ==> listed(fx.removed, (#[trigger] ot[i]).tid->Some_0),
                 forall|i: int| 0 <= i < fx.removed.len() ==> (#[trigger] fx.removed[i]).blob_orphan || fx.removed[i].tid is Some,/*-*/
         {
-            remove_file(&table_path, Ghost(recovered), Ghost(live), Tracked(fx))?;
+            /*+*/let ghost rm0 = fx.removed;/*-*/
+            remove_file(&table_path, Ghost(recovered), Ghost(rec), Tracked(fx))?;
+            /*+*/proof {
+                assert(fx.removed[rm0.len() as int] == table_path);
+                assert forall|i: int| 0 <= i < it_o.index@ + 1 implies listed(fx.removed, (#[trigger] ot[i]).tid->Some_0) by {
+                    if i < it_o.index@ {
+                        let k = choose|k: int| 0 <= k < rm0.len() && (#[trigger] rm0[k]).tid == Some(ot[i].tid->Some_0);
+                        assert(fx.removed[k] == rm0[k]);
+                    } else { assert(fx.removed[rm0.len() as int].tid == Some(ot[i].tid->Some_0)); }
+                }
+            }/*-*/
         }
 
         for blob_file_path in /*+*/it_b:/*-*/ orphaned_blob_files
             /*+*/invariant recovered, forall|i: int| 0 <= i < it_b.seq().len() ==> (#[trigger] it_b.seq()[i]).blob_orphan,
+                forall|i: int| 0 <= i < ot.len() ==> listed(fx.removed, (#[trigger] ot[i]).tid->Some_0),
                 forall|i: int| 0 <= i < fx.removed.len() ==> (#[trigger] fx.removed[i]).blob_orphan || fx.removed[i].tid is Some,/*-*/
         {
-            remove_file(&blob_file_path, Ghost(recovered), Ghost(live), Tracked(fx))?;
+            /*+*/let ghost rm1 = fx.removed;/*-*/
+            remove_file(&blob_file_path, Ghost(recovered), Ghost(rec), Tracked(fx))?;
+            /*+*/proof {
+                assert forall|i: int| 0 <= i < ot.len() implies listed(fx.removed, (#[trigger] ot[i]).tid->Some_0) by {
+                    let k = choose|k: int| 0 <= k < rm1.len() && (#[trigger] rm1[k]).tid == Some(ot[i].tid->Some_0);
+                    assert(fx.removed[k] == rm1[k]);
+                }
+            }/*-*/
         }
+        /*+*/proof {
+            assert forall|j: int| 0 <= j < ents.len() && #[trigger] is_orphan_entry(ents[j], rec) implies listed(fx.removed, ents[j]->Ok_0.name.tid->Some_0) by {
+                let k = choose|k: int| 0 <= k < ot.len() && (#[trigger] ot[k]).tid == Some(ents[j]->Ok_0.name.tid->Some_0);
+                assert(listed(fx.removed, ot[k].tid->Some_0));
+            }
+        }/*-*/
 
         Ok(version)
     }
